@@ -1,0 +1,43 @@
+//go:build verif
+// +build verif
+
+/*
+ * Copyright (c) 2017, MegaEase
+ * All rights reserved.
+ *
+ * Licensed under the Apache License, Version 2.0 (the "License");
+ * you may not use this file except in compliance with the License.
+ * You may obtain a copy of the License at
+ *
+ *     http://www.apache.org/licenses/LICENSE-2.0
+ *
+ * Unless required by applicable law or agreed to in writing, software
+ * distributed under the License is distributed on an "AS IS" BASIS,
+ * WITHOUT WARRANTIES OR CONDITIONS OF ANY KIND, either express or implied.
+ * See the License for the specific language governing permissions and
+ * limitations under the License.
+ */
+
+package sem
+
+import "sync/atomic"
+
+// verifGateFn holds the gate installed by the verification harness, if any.
+var verifGateFn atomic.Value // func(point string, args ...int64)
+
+// VerifSetGate installs (or, with nil, removes) a function that is called at
+// every scheduling point; it may block to order background goroutines.
+// Only available with the build tag verif.
+func VerifSetGate(f func(point string, args ...int64)) {
+	if f == nil {
+		f = func(string, ...int64) {}
+	}
+	verifGateFn.Store(f)
+}
+
+// verifGate is a scheduling point for the verification harness.
+func verifGate(point string, args ...int64) {
+	if f, ok := verifGateFn.Load().(func(string, ...int64)); ok {
+		f(point, args...)
+	}
+}
